@@ -128,6 +128,7 @@ func (x *Exec) doCall(st *State, in ssa.Instruction, c *ssa.CallCommon, mode str
 			for _, a := range args {
 				x.escape(st, a)
 			}
+			x.advanceTop(st)
 			res = x.freshResults(st, results, "inv_"+c.Method.Name())
 		}
 		x.fireHooks(st, in, hookKind(mode), true, all, res)
@@ -167,6 +168,7 @@ func (x *Exec) doCall(st *State, in ssa.Instruction, c *ssa.CallCommon, mode str
 			st.Restrict(Neq(calleeT, Zero))
 		}
 		x.fireHooks(st, in, hookKind(mode), false, args, nil)
+		x.advanceTop(st)
 		// objects handed over by pointer may be modified
 		for k, a := range args {
 			var at types.Type
@@ -243,6 +245,11 @@ func (x *Exec) doCall(st *State, in ssa.Instruction, c *ssa.CallCommon, mode str
 		x.escape(st, a)
 	}
 	name := full
+	{
+		nt := x.D.Fresh("top", SInt)
+		st.Assume(Ge(nt, st.top))
+		st.top = nt
+	}
 	if verified {
 		name = x.P.ShortName(callee)
 		for k := range x.W.fnWrites(x, callee) {
@@ -252,18 +259,17 @@ func (x *Exec) doCall(st *State, in ssa.Instruction, c *ssa.CallCommon, mode str
 		}
 	}
 	x.Abstracted[name] = true
-	for _, a := range args {
-		x.escape(st, a)
-	}
-	{
-		nt := x.D.Fresh("top", SInt)
-		st.Assume(Ge(nt, st.top))
-		st.top = nt
-	}
 	res := x.freshResults(st, results, "call_"+callee.Name())
 	x.fireHooks(st, in, hookKind(mode), true, args, res)
 	setRes(packResults(res))
 	return false
+}
+
+// advanceTop: the callee may allocate, so the allocation frontier moves to an unknown later point.
+func (x *Exec) advanceTop(st *State) {
+	nt := x.D.Fresh("top", SInt)
+	st.Assume(Ge(nt, st.top))
+	st.top = nt
 }
 
 func (x *Exec) onStack(st *State, fn *ssa.Function) bool {
@@ -539,6 +545,13 @@ func (x *Exec) applyContract(st *State, in ssa.Instruction, fc *FuncContract, ca
 			x.escape(st, a)
 		}
 	}
+	if !fc.Pure {
+		// the callee may allocate: the frontier advances first, so that results and the values it
+		// stores into the heaps it writes may be objects it allocated
+		nt := x.D.Fresh("top", SInt)
+		st.Assume(Ge(nt, st.top))
+		st.top = nt
+	}
 	// frame
 	if callee != nil {
 		for k := range x.W.fnWrites(x, callee) {
@@ -551,12 +564,6 @@ func (x *Exec) applyContract(st *State, in ssa.Instruction, fc *FuncContract, ca
 		if _, ok := x.keySort(k); ok {
 			x.havocKey(st, k)
 		}
-	}
-	if !fc.Pure {
-		// the callee may allocate: the frontier advances, results may be fresh objects
-		nt := x.D.Fresh("top", SInt)
-		st.Assume(Ge(nt, st.top))
-		st.top = nt
 	}
 	var res []SymVal
 	if fc.Pure {
